@@ -792,3 +792,29 @@ def _errors_is(I, st, args):
        '(*sync.RWMutex).RLock', '(*sync.RWMutex).RUnlock', '(*sync.Once).Do_')
 def _sync_noop(I, st, args):
     return None
+
+
+# encoding/json (contract for strings only) -------------------------------------------------
+@model('encoding/json.Marshal')
+def _json_marshal(I, st, args):
+    v = args[0]
+    if v is None or not (v.t in I.prog.types and I.prog.is_string(v.t)):
+        raise Unsupported('json.Marshal of a non-string value')
+    s = v.v
+    plain = []
+    for b in s:
+        if is_sym(b):
+            plain.append(And(UGE(b, bvval(0x20, 8)), ULE(b, bvval(0x7e, 8)), b != bvval(0x22, 8), b != bvval(0x5c, 8),
+                             b != bvval(0x3c, 8), b != bvval(0x3e, 8), b != bvval(0x26, 8)))
+        elif not (0x20 <= b <= 0x7e and b not in (0x22, 0x5c, 0x3c, 0x3e, 0x26)):
+            raise Unsupported('json.Marshal of a string that needs escaping')
+    c = mk_and(plain)
+
+    def ok(st_):
+        return Tup((I.new_slice(st_, 'uint8', (0x22,) + tuple(s) + (0x22,)), None))
+
+    def bad(st_):
+        raise Unsupported('json.Marshal of a symbolic string that may need escaping')
+    if c is True:
+        return ok(st)
+    return ('alts', [(c, ok), (mk_not(c), bad)])
